@@ -87,7 +87,7 @@ func (self *Promises) propose(tripStart EpochTime,tripEnd EpochTime,distance Kil
 	}
 
 	// Check that oldest promise can be dropped if we are full
-	if self.entries[MaxPromises-1].TripEnd >= now && self.entries[MaxPromises-1].TripStart > 0 {
+	if (self.entries[MaxPromises-1].TripEnd >= now || self.entries[MaxPromises-1].Clearance >= now) && self.entries[MaxPromises-1].TripStart > 0 {
 		return nil,ENOROOMFORMOREPROMISES
 	}
 
